@@ -108,6 +108,14 @@ def plan(tier, seed):
     for n in range(3, nc + 1):
         for pi, _ in enumerate(E2.parent_vectors(n)):
             tasks.append(("chiral-ring-centres", ("chiral", n, pi)))
+    nr = 5 if thorough else 4
+    scopes.append({"name": "ring-bonds-with-orders", "n_max": nr, "ring_orders": ["", "=", "#"], "edge_orders": ["", "="],
+                   "desc": "one or two ring bonds written with a bond symbol on the ring digit (the parser builds these through its "
+                           "own path), every digit order, under every table: the strict verdict and the table-independence of "
+                           "strict=False apply to them like to any other bond", "tables": TABLES})
+    for n in range(3, nr + 1):
+        for pi, _ in enumerate(E2.parent_vectors(n)):
+            tasks.append(("ring-bonds-with-orders", ("ringorders", n, pi)))
     scopes.append({"name": "dumbbell", "centres": PAIR, "centre_bond": ["-", "=", "#"],
                    "substituents": "every multiset of <= %d substituents on each side" % (4 if thorough else 3),
                    "tables": TABLES})
@@ -322,6 +330,21 @@ def run(task):
                 for ms in multisets(9):
                     last = (star(form % el, ms), None)
                     last = (last[0], check(last[0], r))
+    elif arg[0] == "ringorders":
+        _, n, pi = arg
+        par = list(E2.parent_vectors(n))[pi]
+        at = ["C"] * (n - 1) + ["N"]
+        for rings in E2.ring_sets(n, par, 2, 1):
+            for dp in E2.digit_orders(rings):
+                for ro in itertools.product(["", "=", "#"], repeat=len(rings)):
+                    for bts in itertools.product(["", "="], repeat=n - 1):
+                        rt = {rg: (o, "") for rg, o in zip(rings, ro)}
+                        smi = E2.write(n, par, rings, at, [""] + list(bts), ring_tok=rt, digit_perm=dp)
+                        try:
+                            smiread.read_smiles(smi)
+                        except smiread.SmiError:
+                            continue
+                        last = (smi, check(smi, r))
     elif arg[0] == "chiral":
         _, n, pi = arg
         par = list(E2.parent_vectors(n))[pi]
